@@ -13,7 +13,6 @@ package main
 import (
 	"fmt"
 	"net/http"
-	"net/http/httptest"
 	"sort"
 	"strings"
 	"sync"
@@ -28,7 +27,7 @@ func TestVerifN2HGet(t *testing.T) {
 	n := vfEnvInt("VERIF_N", 150)
 	var mu sync.Mutex
 	var saw []string
-	srv := httptest.NewServer(http.HandlerFunc(func(w http.ResponseWriter, req *http.Request) {
+	srv := vfHTTPServer(http.HandlerFunc(func(w http.ResponseWriter, req *http.Request) {
 		mu.Lock()
 		saw = append(saw, req.RequestURI)
 		mu.Unlock()
